@@ -33,6 +33,9 @@ var replayMu sync.Mutex
 // boundaries only and relies on the happens-before analysis for the seam).
 var seamPoints = false
 
+// seamForWorkload is set by execute for workloads that ask for seam points.
+var seamForWorkload = false
+
 var raceBin = flag.String("race-bin", "", "binary of this check built with -race and the real sync package")
 var freeRun = flag.String("free-run", "", "internal: run the free-running workloads (race build) and exit")
 
@@ -234,6 +237,10 @@ type final struct {
 type workload struct {
 	Root    int     `json:"root"`
 	Threads [][]cop `json:"threads"`
+	// Seam: Store-seam calls are scheduling points in this workload even in
+	// the quick tier (a thread can then be preempted while it holds the lock,
+	// which is what a TryLock fast path needs in order to fail).
+	Seam bool `json:"seam_points,omitempty"`
 }
 
 // seamStore wraps the real store: every call is a scheduling point and a
@@ -245,7 +252,7 @@ type seamStore struct {
 
 func (w seamStore) call(name string, mut bool) {
 	if s := *w.s; s != nil {
-		s.SeamCall(name, mut, seamPoints)
+		s.SeamCall(name, mut, seamPoints || seamForWorkload)
 	}
 }
 func (w seamStore) Access(k int) (int, bool) { w.call("Access", true); return w.inner.Access(k) }
@@ -293,6 +300,7 @@ func initialRef(root int) *ref {
 
 // execute runs w under the schedule chosen by ch on a fresh real cache.
 func execute(w workload, ch *mc.Chooser) *outcome {
+	seamForWorkload = w.Seam
 	out := &outcome{initial: initialRef(w.Root)}
 	var sched *mc.Sched
 	var cbs [][]ev // per thread: callbacks of the operation in progress
@@ -471,7 +479,7 @@ func workloads(r *mc.Run) (ws []workload, bound []int) {
 	for _, root := range mc.Pick(r, []int{2}, []int{0, 1, 2}) {
 		for _, a := range pairs {
 			for _, b := range pairs {
-				add(workload{root, [][]cop{a, b}}, mc.Pick(r, 2, 3))
+				add(workload{Root: root, Threads: [][]cop{a, b}}, mc.Pick(r, 2, 3))
 			}
 		}
 	}
@@ -486,7 +494,7 @@ func workloads(r *mc.Run) (ws []workload, bound []int) {
 	for root := 0; root < baseRoots; root++ {
 		for _, a := range pairs6 {
 			for _, b := range pairs6 {
-				add(workload{root, [][]cop{a, b}}, mc.Pick(r, 3, 4))
+				add(workload{Root: root, Threads: [][]cop{a, b}}, mc.Pick(r, 3, 4))
 			}
 		}
 	}
@@ -496,14 +504,31 @@ func workloads(r *mc.Run) (ws []workload, bound []int) {
 		for i := 0; i < n; i++ {
 			for j := 0; j < n; j++ {
 				for k := 0; k < n; k++ {
-					add(workload{root, [][]cop{{alphabet[i]}, {alphabet[j]}, {alphabet[k]}}}, mc.Pick(r, 2, 4))
+					add(workload{Root: root, Threads: [][]cop{{alphabet[i]}, {alphabet[j]}, {alphabet[k]}}}, mc.Pick(r, 2, 4))
 				}
 			}
 		}
 		// 2 threads x 1 op, unbounded
 		for i := 0; i < n; i++ {
 			for j := 0; j < n; j++ {
-				add(workload{root, [][]cop{{alphabet[i]}, {alphabet[j]}}}, -1)
+				add(workload{Root: root, Threads: [][]cop{{alphabet[i]}, {alphabet[j]}}}, -1)
+			}
+		}
+	}
+	// lock holders preempted inside their critical section (seam points): 2x2 from the
+	// full cache over five operations that matter for recency and accounting
+	if r.Quick() {
+		fam = "2x2 with seam points"
+		five := []cop{{K: "get", A: 0}, {K: "put", A: 2, V: 1}, {K: "has", A: 2}, {K: "remove", A: 1}, {K: "size"}}
+		var p5 [][]cop
+		for _, x := range five {
+			for _, y := range five {
+				p5 = append(p5, []cop{x, y})
+			}
+		}
+		for _, a := range p5 {
+			for _, b := range p5 {
+				add(workload{Root: 2, Threads: [][]cop{a, b}, Seam: true}, 2)
 			}
 		}
 	}
@@ -511,13 +536,13 @@ func workloads(r *mc.Run) (ws []workload, bound []int) {
 	fam = "aged cache"
 	for i := 0; i < n; i++ {
 		for j := 0; j < n; j++ {
-			add(workload{baseRoots, [][]cop{{alphabet[i]}, {alphabet[j]}}}, -1)
+			add(workload{Root: baseRoots, Threads: [][]cop{{alphabet[i]}, {alphabet[j]}}}, -1)
 		}
 	}
 	if !r.Quick() {
 		for _, a := range pairs6 {
 			for _, b := range pairs6 {
-				add(workload{baseRoots, [][]cop{a, b}}, 2)
+				add(workload{Root: baseRoots, Threads: [][]cop{a, b}}, 2)
 			}
 		}
 	}
@@ -529,7 +554,7 @@ func workloads(r *mc.Run) (ws []workload, bound []int) {
 			for _, b := range four {
 				for _, c := range four {
 					for _, d := range four {
-						add(workload{root, [][]cop{{a}, {b}, {c}, {d}}}, mc.Pick(r, 1, 2))
+						add(workload{Root: root, Threads: [][]cop{{a}, {b}, {c}, {d}}}, mc.Pick(r, 1, 2))
 					}
 				}
 			}
@@ -544,7 +569,7 @@ func workloads(r *mc.Run) (ws []workload, bound []int) {
 			for _, a := range alphabet6 {
 				for _, b := range alphabet6 {
 					for _, c := range alphabet6 {
-						add(workload{root, [][]cop{{a}, {b}, {c}}}, -1)
+						add(workload{Root: root, Threads: [][]cop{{a}, {b}, {c}}}, -1)
 					}
 				}
 			}
@@ -564,7 +589,7 @@ func workloads(r *mc.Run) (ws []workload, bound []int) {
 			for _, a := range triples {
 				for _, b := range triples {
 					if root == 2 {
-						add(workload{root, [][]cop{a, b}}, 1)
+						add(workload{Root: root, Threads: [][]cop{a, b}}, 1)
 					}
 				}
 			}
@@ -572,7 +597,7 @@ func workloads(r *mc.Run) (ws []workload, bound []int) {
 				for bi, b := range dbl {
 					for ci, c := range dbl {
 						if (ai+bi+ci)%3 == root { // a third of the 3x2 workloads per root
-							add(workload{root, [][]cop{a, b, c}}, 1)
+							add(workload{Root: root, Threads: [][]cop{a, b, c}}, 1)
 						}
 					}
 				}
@@ -593,7 +618,7 @@ func workloads(r *mc.Run) (ws []workload, bound []int) {
 		}
 		for _, a := range tri {
 			for _, b := range tri {
-				add(workload{2, [][]cop{a, b}}, 2)
+				add(workload{Root: 2, Threads: [][]cop{a, b}}, 2)
 			}
 		}
 	}
@@ -902,5 +927,5 @@ func parent(r *mc.Run, nworkloads int) {
 	r.Bound("roots", mc.Pick(r, "2x2 over 12 operations: full cache; everything else: empty, half full, full", "empty, half full, full"))
 	r.Rule("states = workloads, transitions = complete executions (schedules) of the real Cache under the cooperative scheduler; every schedule within the preemption bound; scheduling points at Lock/Unlock/RLock/RUnlock, every Store-seam call, the eviction callback, operation call and return; non-trivial = executions with at least one preemption")
 	r.Assume("sequential consistency; unsynchronised accesses to plain fields are visible only to the separate free-running -race pass (sampling, a complement)")
-	r.Sample(wtrace{workload{2, [][]cop{{{K: "put", A: 2, V: 1}, {K: "size"}}, {{K: "get", A: 0}, {K: "remove", A: 0}}}}, []mc.Dev{{Pos: 3, Alt: 1}}})
+	r.Sample(wtrace{workload{Root: 2, Threads: [][]cop{{{K: "put", A: 2, V: 1}, {K: "size"}}, {{K: "get", A: 0}, {K: "remove", A: 0}}}}, []mc.Dev{{Pos: 3, Alt: 1}}})
 }
